@@ -108,7 +108,7 @@ def part_aero(s):
     p2 = run([gen.mirror_mesh(m) for m in ms], -s["beta"], cg * POLAR, None if om_ is None else om_ * AXIAL)
     viol, val = [], 0
     wh = dict(part="aero", rot=s["rot"], nsurf=len(ms))
-    Fsc = max(np.abs(p1["ap.aero_states.s%d_sec_forces" % k]).max() for k in range(len(ms)))
+    Fsc = max(max(np.abs(p1["ap.aero_states.s%d_sec_forces" % k]).max() for k in range(len(ms))), gen.force_floor(1.1, 60.0, ms))
     for k in range(len(ms)):
         val += 1
         _viol(viol, "reflection", "sec_forces", p2["ap.aero_states.s%d_sec_forces" % k], flipF(p1["ap.aero_states.s%d_sec_forces" % k]), Fsc, TOL, wh)
